@@ -154,7 +154,7 @@ def run(plan):
                     stored[0] = s.token
 
     try:
-        w.run(main)
+        w.run(s.with_bystander(main, res))
     except (SimDeadlock, SimStepLimit) as e:
         res.fail(f"liveness: {type(e).__name__}", str(e))
 
@@ -345,9 +345,13 @@ def gen_plan(j, rng):
     # always end with plain exchanges so that the discipline after the last event is observed
     ops.append({"op": "refresh"})
     ops.append({"op": "send", "retries": 1})
-    return {"config": {"version": 3, "token": rand_bytes(rng, 64).hex(), "key": rand_bytes(rng, 32).hex(),
-                       "device_id": rng.getrandbits(48), "cred_form": rng.choice(["hex", "bytes"]),
-                       "backpressure": rng.random() < 0.2}, "ops": ops}
+    cfg = {"version": 3, "token": rand_bytes(rng, 64).hex(), "key": rand_bytes(rng, 32).hex(),
+           "device_id": rng.getrandbits(48), "cred_form": rng.choice(["hex", "bytes"]),
+           "backpressure": rng.random() < 0.2}
+    if rng.random() < 0.15:
+        # another V3 (or V2) device with its own key and client object lives in the same process
+        cfg["bystander"] = {"version": rng.choice([3, 3, 2]), "period": rng.choice([0.11, 0.7, 1.3]), "max_rounds": 25}
+    return {"config": cfg, "ops": ops}
 
 
 def space(tier):
